@@ -11,7 +11,7 @@ from dataclasses import field
 from mc import spec as S
 
 EXC_MATCH = {  # which configured class names catch which raised class
-    'E1': {'E1'}, 'E2': {'E2'}, 'Exception': {'E1', 'E2'},
+    'E1': {'E1'}, 'E2': {'E2'}, 'E3': {'E3'}, 'Exception': {'E1', 'E2', 'E3'},
 }
 
 
@@ -92,7 +92,7 @@ class Ref:
         attempts = nd.get('attempts') or 1
         delay = nd.get('delay') or 0
         exc_names = nd.get('exceptions')
-        catch = set().union(*(EXC_MATCH[e] for e in exc_names)) if exc_names else {'E1', 'E2'}
+        catch = set().union(*(EXC_MATCH[e] for e in exc_names)) if exc_names else {'E1', 'E2', 'E3'}
         epoch = self.execs.get(n, 0)
         self.execs[n] = epoch + 1
         self.exec_no += 1
@@ -108,6 +108,8 @@ class Ref:
                 return ('ok', None)
             if oc == 'zero':
                 return ('ok', 0)
+            if oc == 'unhashable':
+                return ('ok', ['a'])
             if oc == 'ambig':
                 from mc import world as _W
                 return ('ok', _W.Ambig(val))
